@@ -111,12 +111,18 @@ func c10Guards(p *chk.Prog, r *chk.Report) {
 		}
 		return nt > 0
 	}
+	// the pool test written in place (the helper is a loop over the pool's BGP advertisements looking for one whose
+	// Nodes contains the node): the comparison for an element of that list, carried by the found-flag of the loop
+	advLoops := f.RangeLoops(func(e ast.Expr) bool { return f.MatchWith("P.BGPAdvertisements", e, chk.H("P", pool)) != nil })
+	selectsInPlace := func(pos bool) chk.Guard {
+		return g.GPat(pos, "A.Nodes[ME]", chk.H("A", elementOf(f, func(e ast.Expr) bool { return f.MatchWith("P.BGPAdvertisements", e, chk.H("P", pool)) != nil })), chk.H("ME", me))
+	}
 	guards := []struct {
 		name string
 		g    chk.Guard
 		msg  string
 	}{
-		{"pool-selects-me", g.GPat(true, "poolMatchesNodeBGP(P, ME)", chk.H("P", pool), chk.H("ME", me)), "a node that no BGP advertisement of the pool selects can announce"},
+		{"pool-selects-me", chk.GOr(g.GPat(true, "poolMatchesNodeBGP(P, ME)", chk.H("P", pool), chk.H("ME", me)), selectsInPlace(true)), "a node that no BGP advertisement of the pool selects can announce"},
 		{"network-available", g.GPat(false, "k8snodes.IsNetworkUnavailable(N[ME])", chk.H("N", nodes), chk.H("ME", me)), "a network-unavailable node can announce"},
 		{"not-excluded", g.GPat(false, "!RECV.ignoreExcludeLB && k8snodes.IsNodeExcludedFromBalancers(N[ME])", chk.H("N", nodes), chk.H("ME", me)), "a node labelled as excluded can announce although exclusion is not ignored"},
 		{"some-ready-endpoint", g.GPat(true, "hasHealthyEndpoint(E, F)", chk.H("E", eps), chk.H("F", acceptAll)), "a Service without any ready endpoint can be announced"},
@@ -150,11 +156,25 @@ func c10Guards(p *chk.Prog, r *chk.Report) {
 		}
 		tag := types.ExprString(res[0])
 		_ = i
-		y.Check("ShouldAnnounce:refusal["+tag+"]", rt.Pos(), g.Dominated(rt, refusals), "", "a refusal is reachable although none of the five required predicates failed")
+		okRef := g.Dominated(rt, refusals)
+		if !okRef {
+			// in place: the refusal is reached only when no advertisement of the pool selects the node
+			for _, rs := range advLoops {
+				if forallBefore(f, g, rs, selectsInPlace(false), rt) == "" {
+					okRef = true
+				}
+			}
+		}
+		y.Check("ShouldAnnounce:refusal["+tag+"]", rt.Pos(), okRef, "", "a refusal is reachable although none of the five required predicates failed")
 	}
 
 	z := r.Rule("POOL-NODE", "B path", "speaker.poolMatchesNodeBGP returns true only from inside the loop over pool.BGPAdvertisements behind adv.Nodes[node]", 1)
-	pm := need(z, p, "speaker", "", "poolMatchesNodeBGP")
+	pm := p.LookupFunc("speaker", "", "poolMatchesNodeBGP")
+	if pm == nil && len(advLoops) > 0 {
+		z.OK("poolMatchesNodeBGP:true-needs-selecting-advertisement", f.Pos(), "the pool test is made in place in ShouldAnnounce (decided there)")
+	} else if pm == nil {
+		pm = need(z, p, "speaker", "", "poolMatchesNodeBGP")
+	}
 	if pm != nil {
 		pg := pm.Graph()
 		for _, rt := range pg.Returns() {
